@@ -156,9 +156,14 @@ func (h *hist) checkProofs(b *branch, s subj, root common.Hash, where string) {
 	// mutations
 	order := h.r.Perm(len(cks))
 	limit := h.cfg.tamperKeys
-	if h.cfg.exhaustive {
+	exh := h.cfg.exhaustive
+	if exh && where == "live" {
 		limit = len(cks)
 	}
+	if where != "live" {
+		h.cfg.exhaustive = false // exhaustive mutation once per content is enough
+	}
+	defer func() { h.cfg.exhaustive = exh }()
 	for n, idx := range order {
 		if n >= limit {
 			break
@@ -379,8 +384,8 @@ func (h *hist) checkRanges(b *branch, s subj, root common.Hash) {
 		return
 	}
 	rounds := 3
-	if h.cfg.exhaustive {
-		rounds = 12
+	if h.cfg.rangeRounds > 0 {
+		rounds = h.cfg.rangeRounds
 	}
 	for round := 0; round < rounds; round++ {
 		i := h.r.Intn(n)
